@@ -201,12 +201,25 @@ def c_reject_path(case, r, m):
     return False
 
 
+def c_force_logoff_silent(case, r, m):
+    """negation of the hypothesis of c16_control_inbound_partial (normal return of process): an inbound message took
+    the force_logoff exception path without a Logout on the wire (silent_disconnect, or a state other than
+    logon_received): process returns false, nothing is sent, the control record is not updated."""
+    for op, st in _steps(case, r):
+        if op.startswith("IN "):
+            evs = st.split(";")
+            if "RET 0" in evs and not any(e.startswith("OUT") for e in evs) and not any(e.startswith("DELIVER") for e in evs):
+                return True
+    return False
+
+
 def c_asa(case, r, m):
     """always_seqnum_assign = true (all statements are for false: DESIGN section 4, C18)."""
     return " asa=1" in _ops(case.line)[0]
 
 
 CLASSIFIERS = {"nonplain-send": c_nonplain_send, "own-logout-noinc": c_own_logout, "reject-path": c_reject_path,
+               "force-logoff-silent": c_force_logoff_silent,
                "always-seqnum-assign": c_asa}
 
 
